@@ -32,6 +32,7 @@ def main():
     ap.add_argument('--checks')
     ap.add_argument('--name')
     ap.add_argument('--seed', default='0')
+    ap.add_argument('--rev', default='HEAD', help='revision of /repo the change is applied to')
     args = ap.parse_args()
     src = args.src or '/tmp/m/{}/out'.format(args.pid)
     name = args.name or args.pid
@@ -41,7 +42,8 @@ def main():
     tmp = tempfile.mkdtemp(prefix='seeded_')
     wt = os.path.join(tmp, 'repo')
     try:
-        r = sh(['git', '-C', '/repo', 'worktree', 'add', '--detach', wt, 'HEAD'])
+        r = sh(['git', '-C', '/repo', 'worktree', 'add', '--detach', wt, args.rev])
+        meta['applied_to'] = sh(['git', '-C', '/repo', 'rev-parse', '--short', args.rev]).stdout.strip()
         if r.returncode:
             print('worktree failed', r.stderr)
             return 2
@@ -84,14 +86,15 @@ def run_checks(args, meta, wt, patch, src, name):
     results = {}
     try:
         for c in checks:
-            env = dict(os.environ, VERIF_SEED=args.seed, BARDOLPH_REPO=wt)
+            out_dir = os.path.join(os.path.dirname(wt), 'out')
+            env = dict(os.environ, VERIF_SEED=args.seed, BARDOLPH_REPO=wt, VERIF_OUT_DIR=out_dir)
             rr = sh([os.path.join(ROOT, 'check'), c, '--tier', 'quick'], cwd=ROOT, env=env, timeout=3000)
             lines = [ln for ln in rr.stdout.splitlines() if ln.startswith('VIOLATION')]
             detail = []
             for ln in lines:
                 path = ln.split('replay=')[1].split()[0]
                 try:
-                    d = json.load(open(os.path.join(ROOT, path)))
+                    d = json.load(open(os.path.join(out_dir, path)))
                     detail.append({'line': ln, 'signature': d.get('signature'),
                                    'what': str(d.get('what'))[:300],
                                    'no_longer_checks': d.get('no_longer_checks')})
